@@ -182,8 +182,8 @@ func (r *replayer) redo(t *rapid.T, s hstep) {
 	switch s.Kind {
 	case "tx":
 		r.step(t, s) // the unconfirmed transaction is announced again after the restart (processing it twice is harmless)
-	case "import", "importJSON":
-		r.step(t, s) // state-based already: imports only if the wallet is not listed
+	case "import", "importJSON", "create":
+		r.step(t, s) // state-based already: imports / creates only if the wallet is not listed
 	case "remove":
 		r.step(t, s) // state-based already: asks again only if listed and not being removed
 	case "newAddress":
